@@ -305,6 +305,51 @@ fn request_case<const N: usize>(c: &mut Ctx, name: &str, k: usize, mi: usize) {
             );
         }
     }
+    // changes that keep a linear combination of the coordinates: +1 / -1 on a pair, two coordinates exchanged
+    // (a key whose y_i coincide binds only the sum of the slots)
+    if N >= 2 {
+        let a = mi % N;
+        let b = (a + 1 + (mi / N) % (N - 1)) % N;
+        let mut cands: Vec<(&str, [Scalar; N])> = vec![];
+        let mut m2 = m.vals;
+        m2[a] += Scalar::one();
+        m2[b] -= Scalar::one();
+        cands.push(("pair+1-1", m2));
+        if m.vals[a] != m.vals[b] {
+            let mut m3 = m.vals;
+            m3.swap(a, b);
+            cands.push(("pair-exchanged", m3));
+        }
+        for (kind, m2) in cands {
+            c.eval();
+            c.distinct(&format!("{}/unblinded-on-changed/pair={}-{}/{}", key, a, b, kind));
+            let oracle = ps_verify_ref(&pka, &sa.s1, &sa.s2, &m2);
+            let lib = guard(|| sig.verify(pk, &Message::new(m2)));
+            let libv = match &lib {
+                Ok(v) => json!(v),
+                Err(p) => json!(format!("panic: {}", p.message)),
+            };
+            c.count(&format!("unblinded-on-pair-change({}):oracle-{}", kind, if oracle { "accepts" } else { "rejects" }), 1);
+            if oracle || !matches!(lib, Ok(false)) {
+                c.violation(
+                    &format!("C08 unblinded-signature-verifies-on-changed-message N={} change={}", N, kind),
+                    sdetail(&m2, oracle, &libv, json!({"coordinates": [a, b], "kind": kind})),
+                );
+            }
+        }
+    }
+    // the same request verified a second time gives the same answer (a verifier is a function of its arguments)
+    {
+        c.eval();
+        c.distinct(&format!("{}/honest-second-verification", key));
+        let again = guard(|| proof.verify_knowledge_of_opening(pk, challenge).is_some());
+        if !matches!(again, Ok(true)) {
+            c.violation(
+                &format!("C08 honest-request-rejected N={} commitment-scalars={} on=second-verification", N, req.cs_name),
+                json!({"second_result": format!("{:?}", again.map_err(|p| p.message)), "info": base}),
+            );
+        }
+    }
     // a signer whose randomiser is zero hands back the all-identity signature: whatever it does on the
     // requester's own tuple, it must verify on no tuple differing in a coordinate
     {
@@ -451,7 +496,66 @@ fn request_case<const N: usize>(c: &mut Ctx, name: &str, k: usize, mi: usize) {
     }
 }
 
+/// The request about the identity element: the all-zero tuple under a zero blinding factor (the builder's
+/// blinding-factor draw scripted to zero). It is an honest request like any other: it verifies, and the
+/// blind signature unblinds (with factor zero) to a signature on the zero tuple and on nothing else.
+fn zero_statement<const N: usize>(c: &mut Ctx, name: &str, k: usize) {
+    let mut rng = c.rng(name);
+    let kp: KeyPair<N> = keypair::<N>(c, k, false);
+    let pk = kp.public_key();
+    let pka = match PkAtoms::from_value(pk) {
+        Ok(a) => a,
+        Err(e) => return c.inconclusive(&e),
+    };
+    let zero = [Scalar::zero(); N];
+    let mut seed = [0u8; 32];
+    rng.fill_bytes(&mut seed);
+    let mut dry = crate::srng::ScriptRng::new(seed);
+    let _ = SignatureRequestProofBuilder::<N>::generate_proof_commitments(&mut dry, Message::new(zero), &[None; N], pk);
+    let mut hit = false;
+    for d in dry.draws_of_len(64) {
+        let mut r = crate::srng::ScriptRng::new(seed);
+        r.inject(d, vec![0u8; 64]);
+        let builder = SignatureRequestProofBuilder::<N>::generate_proof_commitments(&mut r, Message::new(zero), &[None; N], pk);
+        let bf = builder.message_blinding_factor();
+        if bf.as_scalar() != Scalar::zero() {
+            continue;
+        }
+        hit = true;
+        let challenge = challenge_for(0, &builder, pk);
+        let proof = builder.generate_proof_response(challenge);
+        let com_is_identity = trace(&proof).ok().and_then(|t| proof_atoms(&t, N).ok()).map(|a| a.com_bytes == crate::wire::g1_identity_bytes()).unwrap_or(false);
+        c.eval();
+        c.distinct(&format!("zero-statement/N={}/key={}", N, k));
+        c.count(if com_is_identity { "requests_about_the_identity_element" } else { "zero_statement_commitment_not_identity" }, 1);
+        match guard(|| proof.verify_knowledge_of_opening(pk, challenge)) {
+            Err(p) => c.violation(&format!("C08 verify-panicked N={} tamper=none loc={}", N, repo_rel(&p.location)), json!({"statement": "zero tuple, zero blinding factor", "panic": p.message})),
+            Ok(None) => c.violation(&format!("C08 honest-request-rejected N={} commitment-scalars=none statement=identity", N), json!({"statement": "zero tuple, zero blinding factor"})),
+            Ok(Some(vbm)) => {
+                let sig: Signature = vbm.blind_sign(&kp, &mut rng).unblind(bf);
+                let Ok(sa) = sig_atoms(&sig) else { return c.inconclusive("C08: signature atoms") };
+                if !ps_verify_ref(&pka, &sa.s1, &sa.s2, &zero) || !matches!(guard(|| sig.verify(pk, &Message::new(zero))), Ok(true)) {
+                    c.violation(&format!("C08 unblinded-signature-fails-on-requesters-message N={} commitment-scalars=none", N), json!({"statement": "zero tuple, zero blinding factor"}));
+                }
+                let mut m2 = zero;
+                m2[N - 1] = Scalar::one();
+                if ps_verify_ref(&pka, &sa.s1, &sa.s2, &m2) || !matches!(guard(|| sig.verify(pk, &Message::new(m2))), Ok(false)) {
+                    c.violation(&format!("C08 unblinded-signature-verifies-on-changed-message N={} change=+1", N), json!({"statement": "zero tuple, zero blinding factor"}));
+                }
+            }
+        }
+        break;
+    }
+    if !hit {
+        c.inconclusive("C08: no scalar draw of the request builder could be aimed at the blinding factor");
+    }
+}
+
 fn run_n<const N: usize>(c: &mut Ctx, keys: usize, msgs: usize) {
+    {
+        let name = format!("request/N={}/zero-statement", N);
+        c.case(&name, |c| zero_statement::<N>(c, &name, 0));
+    }
     for k in 0..keys {
         for mi in 0..msgs {
             let name = format!("request/N={}/key={}/msg={}", N, k, mi);
